@@ -255,7 +255,9 @@ def build(v, env: Env | None = None):  # noqa: C901, PLR0911, PLR0912
     if tag == "range":
         return range(v["n"])
     if tag == "type":
-        return {"int": int, "str": str, "list": list, "dict": dict}[v["n"]]
+        return {"int": int, "str": str, "list": list, "dict": dict, "tuple": tuple, "set": set,
+                "ordereddict": collections.OrderedDict, "mapping_abc": collections.abc.Mapping,
+                "sequence_abc": collections.abc.Sequence}[v["n"]]
     raise ValueError(f"unknown tag {tag!r}")
 
 
